@@ -142,6 +142,11 @@ def make_container(kind, ops):
 
 BLOCKS = {'row': BlockRowOperator, 'col': BlockColumnOperator, 'diag': BlockDiagonalOperator}
 
+# concrete scalar kinds (dyadic, so that furax's eager float arithmetic on them is exact)
+CONSTS = [2, 0.5, -1, np.float64(4.0), np.float32(2.0), np.array(0.25), jnp.array(2.0), np.int32(3), 1]
+UNARY = ('T', 'I', 'neg', 'pos', 'red', 'lazyI')
+CUNARY = ('cmul', 'rcmul', 'cdiv')
+
 
 class Builder:
     """Builds an expression from parameter arrays (traced or concrete), in a fixed traversal order."""
@@ -166,7 +171,7 @@ class Builder:
             shapes, _, flags = self.leaves[e[1]]
             for s in shapes:
                 out.append(('leaf', tuple(s), flags, f'{e[1]}#{e[2]}'))
-        elif tag in ('T', 'I', 'neg', 'pos', 'red', 'lazyI'):
+        elif tag in UNARY or tag in CUNARY:
             self._layout(e[1], out, seen)
         elif tag in ('mulk', 'kmul', 'divk'):
             self._layout(e[1], out, seen)
@@ -209,7 +214,7 @@ class Builder:
                     return
                 seen.add(e)
                 table[e] = [next(it) for _ in self.leaves[e[1]][0]]
-            elif tag in ('T', 'I', 'neg', 'pos', 'red', 'lazyI'):
+            elif tag in UNARY or tag in CUNARY:
                 assign(e[1])
             elif tag in ('mulk', 'kmul', 'divk'):
                 assign(e[1])
@@ -252,6 +257,12 @@ class Builder:
             r = +b(e[1])
         elif tag == 'red':
             r = b(e[1]).reduce()
+        elif tag == 'cmul':
+            r = b(e[1]) * CONSTS[e[2]]
+        elif tag == 'rcmul':
+            r = CONSTS[e[2]] * b(e[1])
+        elif tag == 'cdiv':
+            r = b(e[1]) / CONSTS[e[2]]
         elif tag == 'mulk':
             r = b(e[1]) * table[('scalar', e[2])]
         elif tag == 'kmul':
@@ -324,7 +335,7 @@ def leaf_names(e, acc=None):
     tag = e[0]
     if tag == 'leaf':
         acc.append(e[1])
-    elif tag in ('T', 'I', 'neg', 'pos', 'red', 'lazyI', 'mulk', 'kmul', 'divk'):
+    elif tag in ('T', 'I', 'neg', 'pos', 'red', 'lazyI', 'mulk', 'kmul', 'divk', 'cmul', 'rcmul', 'cdiv'):
         leaf_names(e[1], acc)
     elif tag in ('@', '+', '-'):
         for c in e[1:]:
@@ -344,7 +355,7 @@ def has_tag(e, tags):
     tag = e[0]
     if tag == 'leaf':
         return False
-    if tag in ('T', 'I', 'neg', 'pos', 'red', 'lazyI', 'mulk', 'kmul', 'divk'):
+    if tag in ('T', 'I', 'neg', 'pos', 'red', 'lazyI', 'mulk', 'kmul', 'divk', 'cmul', 'rcmul', 'cdiv'):
         return has_tag(e[1], tags)
     if tag in ('@', '+', '-'):
         return any(has_tag(c, tags) for c in e[1:])
@@ -369,6 +380,12 @@ def show(e):
         return f'+{show(e[1])}'
     if tag == 'red':
         return f'red({show(e[1])})'
+    if tag == 'cmul':
+        return f'({show(e[1])}*{CONSTS[e[2]]!r})'
+    if tag == 'rcmul':
+        return f'({CONSTS[e[2]]!r}*{show(e[1])})'
+    if tag == 'cdiv':
+        return f'({show(e[1])}/{CONSTS[e[2]]!r})'
     if tag == 'mulk':
         return f'({show(e[1])}*c{e[2]})'
     if tag == 'kmul':
